@@ -19,6 +19,8 @@
         tx    := <guid> <strand> <k> (s e)* <tid|~> <sym|~> <type|~> <pid|~> <product|~> <quals> <m> [<cdsguid> (s e frame)*]
         feat  := <guid> <strand> <k> (s e)* <name|~> <id|~> <ntypes> type* <quals>
         quals := <n> (<key> <m> <value>*)*
+     gfftext <addseq 0|1> <ordered 0|1> <chromrel 0|1> <raise 0|1> <n> (<sequence|~> <seqname|~> <N|W|K cs ce> <m> child*)*
+                                                                  -> ok <text> | err <Class>
      coll   <seed> …                                              -> ok clean | ok viol <clause>…   (checked in Python)
 -/
 import BioCantor.Driver.Proto
@@ -129,6 +131,19 @@ def pRowsArgs : P (Bool × Bool × SColl) := do
   let par ← pPar
   let children ← pList pChild
   pure (chromRel, raise, { seqName, par, children })
+
+def pGColl : P GColl := do
+  let seq ← pOptStr
+  let seqName ← pOptStr
+  let par ← pPar
+  let children ← pList pChild
+  pure { coll := { seqName, par, children }, seq }
+
+/-- (add_sequences, ordered, chromosome_relative_coordinates, raise_on_reserved_attributes, collections) -/
+def pTextArgs : P (Bool × Bool × Bool × Bool × List GColl) := do
+  let addSeq ← pBool; let ordered ← pBool; let chromRel ← pBool; let raise ← pBool
+  let cs ← pList pGColl
+  pure (addSeq, ordered, chromRel, raise, cs)
 
 def pArrow : P Unit := do
   match (← tok) with
@@ -273,6 +288,24 @@ def ops : List (String × Op) := [
         -- is ambiguous: only the per-line and ordering clauses are claimed
         let cl := checkLines c off lines
         pure (failList (if nodup (allGuids c) then cl else cl.filter (· ≠ "decode(rows)=source"))))
+  , ("gfftext", do
+      let (addSeq, ordered, chromRel, raise, cs) ← pTextArgs; pArrow
+      let ans ← pAnswer
+      let names := cs.map gName
+      -- claimed: well-formed collections on pairwise distinct, separator-free, non-empty sequence names, each with
+      -- a non-empty sequence when sequences are requested
+      if !(cs.all fun g => collOk g.coll chromRel) || !nodup names || names.any (fun n => n.isEmpty || hasNameSep n || n.contains ' ')
+         || (addSeq && cs.any fun g => match g.seq with | some s => s.isEmpty | none => false) then pure "n/a" else
+      let isChunk := fun (g : GColl) => match g.coll.par with | .chunk _ _ => true | _ => false
+      let refuse := (chromRel && addSeq && cs.any isChunk) || (addSeq && cs.any fun g => g.seq.isNone) ||
+                    cs.any (fun g => mustRefuse g.coll chromRel raise)
+      match ans with
+      | none => pure (verdict refuse)
+      | some text =>
+        if refuse then pure "fail export-not-refused" else
+        let ls := splitOnChar '\n' text
+        if ls.getLast? ≠ some [] then pure "fail no-final-newline" else
+        pure (failList (checkFile cs addSeq ordered chromRel ls.dropLast)))
   , ("coll", do
       let _seed ← tok; let _profile ← tok; let fasta ← pBool; let mode ← tok; let par ← tok
       pArrow
